@@ -12,7 +12,8 @@ from fractions import Fraction as Fr
 CLAIM = {
  'text': ('PARTIAL. Proved in Lean 4 for all rational scale edges, positions and values (wrap_in_track, wrap_identity, '
           'wrap_unique; wrap_log/wrap_log_l2p/wrap_log_nonpositive for ANY function in place of log10; offScale_*; '
-          'interp_points_on_edges, interp_cross_count_M4, filter_keeps_first_partial, ret_interpolate_points_M4): every '
+          'interp_points_on_edges, interp_cross_count_M4, filter_keeps_first (every MAX >= 1, every list), '
+          'ret_interpolate_points_M4): every '
           'value is mapped to a wrap count and a position with leftP <= pos < rightP and pos + wrap*width = L2P(value), '
           'that pair is unique, a non-positive value on a log scale is refused, and every interpolated wrap point lies '
           'strictly between the two frames on a track edge. The model is tied to PRESCfg.py/Plot.py on every run by an '
@@ -22,8 +23,8 @@ CLAIM = {
  'note': ('Floats are modelled by exact rationals; the comparison accepts a wrap count off by one only when the exact '
           'fractional part is within 2^-40 (or the float error bound) of an integer and counts those cases. math.log10 '
           'is abstract in the model: the driver is handed the float values of log10 the code computed. '
-          'filter_keeps_first_partial covers MAX_BACKUP_TRACK_CROSSING_LINES = 4 and the at most 7 pairs the caller '
-          'can produce, not every list. SVG level is oracle-only. The float-only guard `not math.isfinite(p)` of wrapPos '
+          'filter_keeps_first is proved for every MAX_BACKUP_TRACK_CROSSING_LINES >= 1 and every even-length list. '
+          'SVG level is oracle-only. The float-only guard `not math.isfinite(p)` of wrapPos '
           'cannot fire in the exact model: those inputs are counted (fp_overflow_not_in_model), not compared; the oracle '
           'there demands ExceptionLineTransBaseMath.'),
  'technique': 'Lean 4 proof (ordered field with floor, induction on the wrap loop) + error-bounded model-implementation '
@@ -384,6 +385,17 @@ def run_wrap(ctx):
     for _ in range(ctx.n(15000, 150000)):
         (lP, rP) = gen_phys(rng); (lL, rL), sc = gen_log_scale(rng); v, vc = gen_log_value(rng, lL, rL)
         cases.append(('log', lP, rP, lL, rL, rng.choice(list(BACKUPS)), v, sc, vc))
+    # several transforms with IDENTICAL scale edges on DIFFERENT tracks evaluated on IDENTICAL values, back to back
+    # (a result must depend on the physical track edges too)
+    tracks = [(0.0, 2.4), (3.2, 5.6), (5.6, 8.0), (3.2, 8.0), (0.0, 1.2), (0.25, 0.75)]
+    for _ in range(ctx.n(400, 4000)):
+        if rng.random() < 0.6:
+            (lL, rL), sc = gen_lin_scale(rng); v, vc = gen_value(rng, lL, rL); k = 'lin'
+        else:
+            (lL, rL), sc = gen_log_scale(rng); v, vc = gen_log_value(rng, lL, rL); k = 'log'
+        bu = rng.choice(list(BACKUPS))
+        for (lP, rP) in rng.sample(tracks, 3):
+            cases.append((k, lP, rP, lL, rL, bu, v, sc, 'same-scale-' + vc))
     cases = [c for c in cases if float_ok(*c[1:5], c[6])]
     have_model = getattr(ctx, 'model_available', True)
     replies = ctx.lean([wrap_request(k, lP, rP, lL, rL, v) for (k, lP, rP, lL, rL, bu, v, sc, vc) in cases]) if have_model else [None] * len(cases)
